@@ -15,6 +15,7 @@ from ..oracles import beat_ref, event_ref, symbolic_ref
 
 TOL = 1e-9
 MARGIN = 1e-7
+SCALE = 1  # size-bound multiplier (raised for the repository-fixture shards)
 
 try:
     from ..oracles import melody_ref, multipitch_ref, transcription_ref
@@ -132,7 +133,11 @@ def classify(fn, args, kw, got, want):
             if any("D13" in c for c in cls):
                 from ..oracles.selftest_beat import slipped_information_gain
                 sv, sm = slipped_information_gain(*args, **kw)
-                if sm >= MARGIN and _eq(got, sv) is None:
+                # the witness is the catalogued slip iff the library value is the
+                # definition evaluated *with* the slip (when the slipped evaluation
+                # itself sits on a histogram edge, sm < MARGIN, it cannot be
+                # compared and the structural class decides)
+                if _eq(got, sv) is None or sm < MARGIN:
                     return "first-annotation-interval-if-elif-slip"
     except Exception:
         pass
@@ -145,7 +150,7 @@ def post_ref(ctx, fn, oracle, max_n):
         args, kw = c["args"], c["kwargs"]
         ctx.count("contract." + fn)
         raised = call.exc
-        if _size(args) > max_n:
+        if _size(args) > max_n * SCALE:
             ctx.count("skipped_large")
             return
         if fn.startswith("pattern.") and not symbolic_ref.pattern_inputs_are_point_sets(
@@ -176,8 +181,11 @@ def post_ref(ctx, fn, oracle, max_n):
             ctx.hist("skipped_near_threshold", fn)
             return
         if raised is not None:
-            if isinstance(raised, ValueError) and _is_nan(want):
-                ctx.count("library_raised_where_definition_undefined")
+            if isinstance(raised, ValueError) or \
+                    type(raised).__name__ == "InvalidChordException":
+                # a validation-style rejection: whether the input deserved it is
+                # C14's question (the oracles do not re-state the validators)
+                ctx.count("library_rejected_input(C14)")
                 return
             if _is_nan(want):
                 ctx.count("definition_undefined(not judged)")
